@@ -56,7 +56,7 @@ def run(m, chk):
         "control points and weights of both operands (DEP-MUST field coverage), every refined copy is read (no dead refinement), operands are not modified, "
         "__ne__ is the negation of __eq__, the non-curve ⇒ False guard comes first. The 1e-9 semantics and invariance under elevation are not decided."
     )
-    chk.decides = ["DEP-MUST field coverage", "DEAD-REFINEMENT", "PURE", "__ne__ = not __eq__", "type guard first"]
+    chk.decides = ["DEP-MUST field coverage", "DEAD-REFINEMENT", "PURE", "__ne__ = not __eq__", "type guard first", 'REFINE-BOTH (comparison only after refinement or for equal knot vectors)']
     chk.not_decided = ["tolerance semantics", "invariance of the answer under knot insertion / degree elevation as values"]
     ctx = r.root(EQ)
     fi = ctx.fi
